@@ -609,6 +609,37 @@ impl Session {
     }
 
     /// reflect bytes of one component of one local entity (what the snapshot prints for it)
+    /// length of the `ComponentUpdated` message the crate sends for this component (real reflect encoding, real bincode)
+    pub fn comp_msg_len(&mut self, peer: u32, e: Entity, ty: Ty) -> Option<usize> {
+        let world = self.peers[peer as usize].app.world_mut();
+        let registry = world.resource::<AppTypeRegistry>().clone();
+        let registry = registry.read();
+        let er = world.get_entity(e)?;
+        macro_rules! comp {
+            ($t:ty) => {
+                er.get::<$t>().and_then(|c| verif::reflect_to_bin(c.as_reflect(), &registry).ok())
+            };
+        }
+        let data = match ty {
+            Ty::A => comp!(CompA),
+            Ty::B => comp!(CompB),
+            Ty::E => comp!(CompE),
+            Ty::V => comp!(CompV),
+            Ty::U => comp!(CompU),
+            Ty::Transform => comp!(Transform),
+            Ty::Name => comp!(Name),
+            Ty::Visibility => comp!(Visibility),
+            _ => None,
+        }?;
+        let m = verif::VMessage::ComponentUpdated { id: uuid::Uuid::nil(), name: ty.type_path().to_string(), data };
+        Some(verif::encode_message(&m).len())
+    }
+
+    pub fn plain_msg_lens() -> (usize, usize) {
+        (verif::encode_message(&verif::VMessage::EntitySpawn { id: uuid::Uuid::nil() }).len(),
+         verif::encode_message(&verif::VMessage::FinishedInitialSync).len())
+    }
+
     pub fn comp_bytes(&mut self, peer: u32, e: Entity, ty: Ty) -> Option<String> {
         let world = self.peers[peer as usize].app.world_mut();
         let registry = world.resource::<AppTypeRegistry>().clone();
@@ -1110,7 +1141,26 @@ impl Session {
             }
         }
         let sync_finished = world.resource::<SyncFinishedCount>().0;
-        json!({"ents": ents, "marks": marks, "tracker": tracker, "xfer": xfer, "assets": assets, "served": served,
+        // bytes this peer has sent on the reliable channel that the other side has not acknowledged yet (renet resends them
+        // after a real-time delay when a datagram was dropped): quiescence needs this to be zero on every connected link
+        let budget: usize = 5 * 1024 * 1024; // max_memory_usage_bytes of every default channel
+        let mut unacked: usize = 0;
+        let mut unacked_links: BTreeMap<String, usize> = BTreeMap::new();
+        if let Some(cl) = world.get_resource::<RenetClient>() {
+            if cl.is_connected() {
+                let n = budget.saturating_sub(cl.channel_available_memory(bevy_renet::renet::DefaultChannel::ReliableOrdered));
+                unacked += n;
+                unacked_links.insert("c".into(), n);
+            }
+        }
+        if let Some(sv) = world.get_resource::<RenetServer>() {
+            for id in sv.clients_id() {
+                let n = budget.saturating_sub(sv.channel_available_memory(id, bevy_renet::renet::DefaultChannel::ReliableOrdered));
+                unacked += n;
+                unacked_links.insert(format!("s{}", id.raw()), n);
+            }
+        }
+        json!({"ents": ents, "unacked": unacked, "unacked_links": unacked_links, "marks": marks, "tracker": tracker, "xfer": xfer, "assets": assets, "served": served,
                "server_state": server_state, "client_state": client_state,
                "server_transport": has_server_t, "client_transport": has_client_t,
                "client_connected": client_connected, "client_disconnected": client_disconnected, "disc_reason": disc_reason,
